@@ -64,6 +64,9 @@ func convRun(w *World, coll bool) {
 		// an equivalence under which many consecutive writes are equivalent (they differ only in V, which still tells
 		// the writes apart for the oracle): the subscriber's view must then agree with the store up to that equivalence
 		cw.cfg.EquivNoV, g.pool = true, true
+		// ... and, for a Value, sometimes a tolerance on N on top (like the float tolerances of the trait models): a run
+		// of small steps must not carry the subscriber's view further from the store than the tolerance
+		cw.cfg.EquivTolN = !coll && t.Flag(1, 2)
 	}
 	clock := &simClock{}
 	cw.r = newRealRes(cw.cfg, clock, &simRNG{})
@@ -278,6 +281,9 @@ func (cw *convWorld) check(t *Task) {
 		same := func(a, b mm) bool {
 			if cw.cfg.EquivNoV {
 				a.V, b.V = 0, 0
+			}
+			if d := a.N - b.N; cw.cfg.EquivTolN && d >= -1 && d <= 1 {
+				a.N, b.N = 0, 0
 			}
 			return a == b
 		}
